@@ -344,6 +344,37 @@ pub fn run(tier: Tier, seed: u64, replay: Option<String>) -> i32 {
                 let o = comp::compile_rasn(&srcs, &cfg);
                 out.push((leg, nontrivial, base_src.clone(), srcs, differ(&base, &o)));
             }
+            // the same with input that deserves a diagnostic: an IMPORTS clause naming a symbol its
+            // source module does not define, and a reference to a type nobody defines; whatever is
+            // reported (Ok with warnings, or Err) must not depend on the order either
+            if ms.modules.len() > 1 {
+                let mut bad = ms.clone();
+                let k = psrc.pick(bad.modules.len());
+                let other = (k + 1 + psrc.pick(bad.modules.len() - 1)) % bad.modules.len();
+                let from = bad.modules[other].name.clone();
+                match bad.modules[k].imports.iter_mut().find(|im| im.from == from) {
+                    Some(im) => im.symbols.push("Ghost-Type".into()),
+                    None => bad.modules[k].imports.push(Import { symbols: vec!["Ghost-Type".into()], from }),
+                }
+                if psrc.chance(50) {
+                    bad.modules[other].items.push(Item::Type { name: "Dangling-User".into(), tag: None, ty: Ty::Ref { module: None, name: "Nobody-Defines-This".into(), cons: vec![] } });
+                }
+                let bad_src = vec![print(&bad)];
+                let bad_base = comp::compile_rasn(&bad_src, &cfg);
+                let mut bv: Vec<(String, Vec<String>)> = vec![];
+                let mut p = bad.clone();
+                p.modules.reverse();
+                bv.push(("diagnostic-input:modules-reversed".into(), vec![print(&p)]));
+                let sep: Vec<String> = bad.modules.iter().map(|m| print(&ModuleSet { modules: vec![m.clone()] })).collect();
+                bv.push(("diagnostic-input:separate-sources".into(), sep.clone()));
+                let mut seprev = sep.clone();
+                seprev.reverse();
+                bv.push(("diagnostic-input:separate-sources-reversed".into(), seprev));
+                for (leg, srcs) in bv {
+                    let o = comp::compile_rasn(&srcs, &cfg);
+                    out.push((leg, true, bad_src.clone(), srcs, differ(&bad_base, &o)));
+                }
+            }
             out
         })
         .collect();
